@@ -290,6 +290,18 @@ class SymWalker:
             if k == "call":
                 args = [self.op_val(env, a) for a in t["args"]]
                 val = self.call_model(t, args)
+                if val is None and t["callee"] in ("std::cmp::max", "std::cmp::min", "std::cmp::Ord::max", "std::cmp::Ord::min") and \
+                        len(args) == 2 and all(isinstance(a, Aff) for a in args) and t["t"] is not None and not t["dest"]["p"]:
+                    # max(a, b) / min(a, b) of two affine values: a case split on their order (piecewise affine)
+                    is_max = t["callee"].endswith("max")
+                    c = Cmp("Ge" if is_max else "Le", args[0], args[1])
+                    p2 = self._clone(path)
+                    p2.conds.append((c, False))
+                    env2 = dict(env)
+                    env2[t["dest"]["l"]] = args[1]
+                    self._go(t["t"], env2, p2, stop_at_loops)
+                    path.conds.append((c, True))
+                    val = args[0]
                 if val is None:
                     val = Opaque(t["callee"].split("::")[-1])
                 env = dict(env)
